@@ -25,6 +25,7 @@ const (
 	MARKTOK               // a redaction marker followed by a token byte (4 bytes)
 	MARK2                 // marker, printable byte, marker (7 bytes)
 	NEARMARK              // U+2038 or U+203B (3 bytes)
+	TOKMARK2              // token byte, marker, printable byte, marker, token byte (9 bytes)
 )
 
 func isMarker(s string) bool { return s == "\u2039" || s == "\u203a" }
@@ -37,6 +38,8 @@ func classOK(c Class, s string) bool {
 		return len(s) == 7 && isMarker(s[:3]) && s[3] >= 0x20 && s[3] <= 0x7e && isMarker(s[4:])
 	case NEARMARK:
 		return s == "\u2038" || s == "\u203b"
+	case TOKMARK2:
+		return len(s) == 9 && s[0] >= 1 && s[0] <= 8 && isMarker(s[1:4]) && s[4] >= 0x20 && s[4] <= 0x7e && isMarker(s[5:8]) && s[8] >= 1 && s[8] <= 8
 	}
 	for i := 0; i < len(s); i++ {
 		b := s[i]
